@@ -99,6 +99,12 @@ Definition dec_rows (types : list tid) (n : N) (l : list N) : list (list (tid * 
              (combine types (takeN k l) :: rs, tl)
     end in go (S (length l) + N.to_nat (N.min n 100000))%nat n l.
 
+(* column batches store one value per declared type, in the archetype's (sorted, duplicate-free) type
+   order: the row of a batch spawn in that order (the first value given for a type wins; a type the
+   script gives no value for - only possible when the script ends early - gets the value 0) *)
+Definition norm_row (sorted : list tid) (row : list (tid * val)) : list (tid * val) :=
+  concat (map (fun t => match lookup_first t row with Some v => [(t, v)] | None => [(t, 0)] end) sorted).
+
 Definition dec_hrefs (st : est) (n : N) (l : list N) : list entity * list N :=
   let fix go (fuel : nat) (n : N) (l : list N) :=
     match fuel with
@@ -181,6 +187,13 @@ Definition enc_entries (u : universe) (l : list (entity * item)) : list N :=
 Definition sel_handles (l : list entity) : list entity :=
   if N.leb (lenN l) 16 then l else takeN 4 l ++ dropN (lenN l - 12) l.
 
+(* assert_distinct: no two of the handles are equal (id and generation) *)
+Fixpoint distinct_entities (l : list entity) : bool :=
+  match l with
+  | [] => true
+  | h :: r => negb (existsb (fun x => N.eqb (e_id x) (e_id h) && N.eqb (e_gen x) (e_gen h)) r) && distinct_entities r
+  end.
+
 Definition enc_opt_item (u : universe) (o : option item) : list N :=
   match o with None => [0] | Some i => 1 :: enc_item u i end.
 
@@ -203,6 +216,23 @@ Definition run_query (st : est) (wi : N) (w : world) (qidx path arg : N) (q : qu
   | 7 => (st, concat (map (fun h => match query_one w q h with
                                     | Q1NoSuch => [0] | Q1Unsat => [1] | Q1Item i => 2 :: enc_item u i
                                     end) hs))
+  | 9 =>
+      (* World::query_many_mut / View::get_many_mut on three of the probe handles: a rotation of the
+         selection by [arg]; [arg >= 1000] repeats the first handle (assert_distinct must panic) *)
+      let k := match lenN hs with 0 => 0 | n => N.modulo arg n end in
+      match dropN k hs ++ takeN k hs with
+      | a :: b :: c :: _ =>
+          let tri := if N.leb 1000 arg then [a; b; a] else [a; b; c] in
+          if distinct_entities tri then
+            (st, 1 :: concat (map (fun h => match query_one w q h with
+                                            | Q1NoSuch => [0] | Q1Unsat => [1] | Q1Item i => 2 :: enc_item u i
+                                            end) tri)
+                   ++ concat (map (fun h => enc_opt_item u (view_get w q h)) tri))
+          else (st, [3])
+      | _ => (st, [7])
+      end
+  | 10 => let bs := query_batches w q arg in     (* QueryMut::into_iter_batched *)
+          (st, lenN bs :: concat (map (enc_entries u) bs))
   | _ => (st, map (fun h => match satisfies w q h with None => 0 | Some b => if b then 2 else 1 end) hs
               ++ map (fun a => match access (a_types a) q with None => 0 | Some x => x + 1 end) (w_archs w))
   end.
@@ -480,10 +510,7 @@ Definition dump_cells (st : est) : list N :=
     | Some w =>
         5 :: concat (map (fun ia =>
                let '(i, a) := ia in
-               map (fun t => match a_rows a with
-                             | [] => 0
-                             | _ => cell_code (cell_get (cells_of st wi) i t)
-                             end) (sort_by (fun t => t) (a_types a)))
+               map (fun t => cell_raw (cell_get (cells_of st wi) i t)) (sort_by (fun t => t) (a_types a)))
              (combine (seqN 0 (lenN (w_archs w))) (w_archs w)))
     end) [0; 1]).
 
@@ -1054,11 +1081,12 @@ Definition exec_op (st : est) (opc : N) (l : list N) : est * list N * list N :=
             let '(ts, r1) := dec_types args in
             match r1 with
             | n :: r2 =>
-                let '(rows, rest) := dec_rows ts n r2 in
+                let '(rows0, rest) := dec_rows ts n r2 in
                 let sorted := dedup_sorted (tsort u ts) in
+                let rows := map (norm_row sorted) rows0 in
                 match w_spawn_column_batch w sorted rows with
                 | Done (w', hs) => (add_handles (set_w st wi w' 0) hs, rest, out_ok u (map enc_entity hs) [])
-                | Panic c => (add_handles (set_w st wi w 1) (repeatN NOHANDLE n), rest, out_panic u c (concat rows))
+                | Panic c => (add_handles (set_w st wi w 1) (repeatN NOHANDLE n), rest, out_panic u c (concat rows0))
                 end
             | [] => (st, [], [])
             end
@@ -1067,8 +1095,9 @@ Definition exec_op (st : est) (opc : N) (l : list N) : est * list N * list N :=
             match r1 with
             | n :: r2 =>
                 let '(hs, r3) := dec_hrefs st n r2 in
-                let '(rows, rest) := dec_rows ts n r3 in
+                let '(rows0, rest) := dec_rows ts n r3 in
                 let sorted := dedup_sorted (tsort u ts) in
+                let rows := map (norm_row sorted) rows0 in
                 if existsb (fun h => N.ltb MAX_AT_ID (e_id h)) hs then (add_handles st hs, rest, [8]) else
                 match w_spawn_column_batch_at w hs sorted rows with
                 | (w', None, d) => (add_handles (set_w st wi w' 0) hs, rest, out_ok u [] d)
